@@ -334,8 +334,13 @@ class C13(Check):
         for b in m_branches:
             p_ref[b.records["m"][-1]] = p_ref.get(b.records["m"][-1], 0.0) + b.prob
 
+        # qubit_map says which axis each qubit is; the order in which the dict was filled says nothing
+        fill_order = tape.shuffle(list(range(n)), "qubit-map-order") if tape.chance(1, 2, "permute-map?") else list(range(n))
+        if fill_order != list(range(n)):
+            ctx.probe("clifford-state:qubit-map-filled-out-of-order")
+
         def leaf(prng):
-            st = cirq.CliffordState(qubit_map={q: i for i, q in enumerate(qs)})
+            st = cirq.CliffordState(qubit_map={qs[i]: i for i in fill_order})
             for op in prep:
                 st.apply_unitary(op)
             before = np.asarray(st.state_vector(), dtype=np.complex128)
